@@ -479,6 +479,7 @@ PROPS["C06"]["harnesses"].append({"name": "walletfaultkeys", "pkg": "harness/wal
                                   "search": {"n": 2, "len": 4, "focus": "C05F"}, "timeout": 3000})
 # collector side of C17: what a LocalCollector reports for a qualities task
 PROPS["C17"]["props"].append("MassVerif.Props.C17Collector")
+PROPS["C17"]["props"].append("MassVerif.Props.C17EndToEnd")    # codec + framing + any transport chunking, composed
 PROPS["C17"]["drivers_mod"].append("MassVerif.Driver.Collector")
 PROPS["C17"]["harnesses"].append({"name": "collector", "pkg": "harness/collector", "driver": "MassVerif/Driver/Collector.lean",
                                   "quick": {"n": 80}, "thorough": {"n": 800}, "search": {"n": 400}, "replayable": False, "timeout": 600})
